@@ -28,10 +28,10 @@ CLAIMED["C11"] = dict(
     technique="exhaustive insertion of lexical irregularities at every token gap, oracle = independent scanner vs parsed root span",
 )
 
-UNI = "the program universe U(n): type-directed size-exact enumeration over 8 menus (complete below the per-menu size bound) plus 5 recursion/effect schemas with every hole filler below the filler bound (78k programs quick, 416k thorough)"
+UNI = "the program universe U(n): type-directed size-exact enumeration over 12 menus (complete below the per-menu size bound) plus 8 recursion/effect/record schemas with every hole filler below the filler bound (120k programs quick; one size step more in thorough), together with a System-F / F-omega mini universe (explicit type abstraction and application, aliases, existential packages, a type operator; 9.4k programs quick, each with all single-site mutants)"
 CLAIMED["C01"] = dict(
     category="exploration",
-    text="Every program of " + UNI + " is printed, accepted by the real front end, linked and stepped one public Eval::step at a time under catch_unwind; any unwind other than the defined arithmetic trap (or a host I/O failure of the legacy stream operations) is a violation attributed to the program text. Decides the property for all programs below the bound; says nothing above it.",
+    text="Every program of " + UNI + " is printed, accepted by the real front end, linked and stepped one public Eval::step at a time under catch_unwind; any unwind other than the defined arithmetic trap (or a host I/O failure of the legacy stream operations) is a violation attributed to the program text. Also: every mutant the checker accepts (reference-checker catalogue, variance negatives, System-F mutants) must not go wrong; 18 programs with a term hole in each position; 516 data/codata declarations over a small name pool. Decides the property for all programs below the bound; says nothing above it.",
     design_ref="C01",
     note="Trusts catch_unwind + panic location as the stuck-state observer and the harness's classification of defined traps.",
     technique="bounded-exhaustive program enumeration, each program stepped on the real interpreter under a stuck-state observer",
@@ -45,7 +45,7 @@ CLAIMED["C02"] = dict(
 )
 CLAIMED["C03"] = dict(
     category="exploration",
-    text="Positive side: every program of the universe is well typed by construction in the reference system and printed with maximal annotations, so check must accept it. Negative side: see DESIGN (definite-error mutants).",
+    text="Positive side: every program of " + UNI + " is well typed by construction in the reference system and printed with maximal annotations, so check must accept it. Negative side: every single-site mutant that the harness's reference checker rejects must be rejected (core catalogue on a stride of the universe; all 109k System-F / F-omega mutants incl. escaping abstract types). Type-equivalence matrix: all ordered pairs of 383 small types (quantifiers, free vs bound variables, an alias, pairs, existentials, operator applications) are accepted as equal iff alpha-equivalent. Declarations: 516 data/codata declarations over a pool of 3 names are accepted iff the names are distinct.",
     design_ref="C03",
     note="Trusts the generator's typing discipline (type-directed construction) and the annotation policy; a rejected class is first treated as a generator bug.",
     technique="bounded-exhaustive enumeration of well-typed programs and of definite-error mutants, accept/reject oracle",
@@ -68,12 +68,12 @@ CLAIMED["C09"] = dict(
 
 CLAIMED["C04"] = dict(
     category="exploration",
-    text="Every ordered arm list of length 0..k (k as large as a per-type budget allows; 25k matrices per type quick, 250k thorough) over all patterns of nesting depth <= 2, for 18 scrutinee types, is type-checked by the real checker and, when accepted, run on every enumerated value; the oracle is brute-force value enumeration (accept iff covered; reported missing patterns denote uncovered values and cover them all when not truncated; the first matching arm is taken). Comatches: every arm list of length <= 4 over codata with 0..3 destructors.",
+    text="Every ordered arm list of length 0..k (k as large as a per-type budget allows; 25k matrices per type quick, 250k thorough) over all patterns of nesting depth <= 2, for 18 scrutinee types, is type-checked by the real checker and, when accepted, run on every enumerated value; the oracle is brute-force value enumeration (accept iff covered; reported missing patterns denote uncovered values and cover them all when not truncated; the first matching arm is taken). Comatches: every arm list of length <= 4 over codata with 0..3 destructors; generalized copatterns: every ordered list of <= 5 clauses over 8 spines (nested destructor paths, whole-subobject clauses, argument patterns; 37k lists) is accepted iff a reference says the observation tree is covered exactly once, and each observation selects the reference's clause.",
     design_ref="C04",
     note="Recursive types are enumerated to depth 3 (deeper than every pattern used). Alias patterns only with irrefutable members (the checker rejects others by design).",
     technique="bounded-exhaustive enumeration of pattern matrices with a brute-force value-enumeration oracle",
 )
-FMT = "sources = mini corpus + 32 formatter minis + repository sources (size-limited per tier); deviations at every token gap (whitespace kinds, one parenthesised atom, one comment of 6 kinds); all 336 directive combinations on undeviated minis and 6 key configurations elsewhere; each formatter call on the real PrettyFormatter under catch_unwind in a worker with a 20 s watchdog"
+FMT = "sources = mini corpus + 43 formatter minis + grammar pairs (every production, parenthesised, in every one-hole context) + a stride of the generated programs of both universes + repository sources (size-limited per tier); deviations at every token gap (whitespace kinds, one parenthesised atom, one comment of 6 kinds); all 336 directive combinations on undeviated minis and 6 key configurations elsewhere (the 3 wide ones only for sources above 1500 bytes); each formatter call on the real PrettyFormatter under catch_unwind in a worker with a 20 s watchdog"
 CLAIMED["C12"] = dict(
     category="exploration",
     text="Formatting is total and meaning-preserving: " + FMT + "; oracle: no unwind or hang, the output parses, and the desugared structure (bitter arena printed without ids/spans) of output and input are equal.",
@@ -104,21 +104,21 @@ CLAIMED["C15"] = dict(
 )
 CLAIMED["C16"] = dict(
     category="exploration",
-    text="The real zydeco binary, one fresh process per (file, command, instance): compile/builtin fixtures x {check, run, build -t zir|zasm|asm|llvm}, fail/exec fixtures x {check, fmt}, multi-error programs x check; instances = hash seeds owned through an LD_PRELOAD getrandom interposer plus one run without ASLR; stdout, stderr and exit status must be byte-identical across instances.",
+    text="The real zydeco binary, one fresh process per (file, command, instance): compile/builtin fixtures x {check, run, build -t zir|zasm|asm|llvm}, fail/exec fixtures x {check, fmt}, multi-error programs x check; instances = hash seeds owned through an LD_PRELOAD getrandom interposer plus one run without ASLR; stdout, stderr and exit status must be byte-identical across instances. Plus in-process diagnostics of error-injected block shapes under 7 seeds, and 2.5k ill-typed programs of many error kinds each checked by the real binary under 3 seeds.",
     design_ref="C16",
     note="A bounded enumeration of the hash-seed space (4 quick / 16 thorough), not of all iteration orders; address dependence only probed by ASLR on/off.",
     technique="enumeration of hash seeds per process (owned nondeterminism) with a byte-identity oracle across instances",
 )
 CLAIMED["C18"] = dict(
     category="exploration",
-    text="Every accepted program of " + UNI + " is lowered stage by stage under catch_unwind (stack IR, closure conversion, assembly, renderers, AMD64 ELF/Mach-O, LLVM for 4 triples) and the SPSLow program is re-validated by an independent harness validator (closed root, blocks closed over their own label, unique labels, stack lets only around coproduct matches, unique comatch tags, sane product layouts, externs in the builtin table); emitted AMD64 text must not define a label twice.",
+    text="Every accepted program of " + UNI + ", every runnable repository fixture under lib/tests and 9 hand-written binder forms is lowered stage by stage under catch_unwind (stack IR, closure conversion, assembly, renderers, AMD64 ELF/Mach-O, LLVM for 4 triples) and the SPSLow program is re-validated by an independent harness validator (closed root, blocks closed over their own label, unique labels, stack lets only around coproduct matches, unique comatch tags, sane product layouts, externs in the builtin table); emitted AMD64 text must not define a label twice.",
     design_ref="C18",
     note="Assembly-arena validation is limited to what the emitted text shows; the backend's unsupported pattern fragment is a known finding.",
     technique="bounded-exhaustive program enumeration through the real lowering pipeline with independent IR re-validation",
 )
 CLAIMED["C19"] = dict(
     category="translation_validation",
-    text="Every accepted program of " + UNI + " is converted to first-order SPS by the real pipeline and run on the harness's SPSLow reference machine (layout-aware flat products, blocks closed over their own label, name-checked tags, host operations = the repository's implementations reached through the interpreter's Prim step); output and result must equal the interpreter's.",
+    text="Every accepted program of " + UNI + ", every runnable repository fixture under lib/tests and 9 hand-written binder forms is converted to first-order SPS by the real pipeline and run on the harness's SPSLow reference machine (layout-aware flat products, blocks closed over their own label, name-checked tags, host operations = the repository's implementations reached through the interpreter's Prim step); output and result must equal the interpreter's.",
     design_ref="C19",
     note="The machine is new code validated by mass agreement on the unchanged tree; native execution is unavailable offline.",
     technique="bounded-exhaustive program enumeration with per-program translation validation on a reference machine for the target IR",
